@@ -67,15 +67,18 @@ func c18RunOps(c *Ctx, l *lib.Lean, name string, ops []string) error {
 	}
 	switch {
 	case strings.HasPrefix(ops[0], "peer "):
-		nh, ng := 5, 2
+		nh, ng := len(c18FamilySpecs), 2
 		for _, op := range ops {
 			w := strings.Fields(op)
 			if len(w) >= 4 && w[1] == "add" {
 				var h int
 				fmt.Sscan(w[3], &h)
-				if h >= 5 {
+				if h >= len(c18FamilySpecs) {
 					nh, ng = 30, 7
 				}
+			}
+			if op == "peer universe wide" {
+				nh, ng = 30, 7
 			}
 		}
 		return c18RunPeerHistory(c, l, c18PeerHistory{name: name, nhosts: nh, ngroups: ng, ops: ops})
@@ -105,7 +108,7 @@ const c18DoubleVersionWhat = "an outbound peer whose remote sends two version me
 
 func runC18(c *Ctx) error {
 	rng := lib.Rng(c.Seed, "c18")
-	c.R.Rule = "peers: seeded histories of add(in|out|pers, host, version-known)/done/ban/clock/addbad/shutdown/dump over 5 hosts in 3 groups (three hosts share a /16, one is RFC1918) (styles mix, fill = persistent peers up to MaxPeers, accident = peers without version/id 0) and 30 hosts x 7 groups (wide), each executed on the real handlers with real peer.Peer objects after a real version handshake over an in-memory connection, compared per op with the Lean model; non-trivial = at least one refusal for per-host limit, total limit or ban. " +
+	c.R.Rule = "peers: seeded histories of add(in|out|pers, host, version-known)/done/ban/clock/addbad/shutdown/dump over 9 address texts of several families (IPv4 incl. two in one /16 and one RFC1918, IPv6 lower and upper case, link-local with zones %eth0 and %lo, IPv4-mapped IPv6; the model's host is the text SplitHostPort(sp.Addr()) yields, so an inbound and an outbound peer of one machine can be different hosts) (styles mix, fill = persistent peers up to MaxPeers, accident = peers without version/id 0) and 30 hosts x 7 groups (wide), each executed on the real handlers with real peer.Peer objects after a real version handshake over an in-memory connection, compared per op with the Lean model; non-trivial = at least one refusal for per-host limit, total limit or ban. " +
 		"connmgr lock-step: seeded scripts of dial ok/fail/address error/Disconnect/Remove/cancel on the real ConnManager (target 0..8, 1 ms retry, with and without BanAddress), counts compared with the Lean counter machine after every event; non-trivial = at least one failure and one disconnect. " +
 		"wired: the real server handlers own the real ConnManager (sp.connReq set as in outboundPeerConnected); seeded online scripts of dial ok (-> handshake -> admission; a refused outbound peer goes through handleDonePeerMsg) / fail / address error / peer done / inbound arrivals / ban / clock, target 1..4, compared per event with the composed Lean model (Model/PeerWire) and the oracle established + in flight = target; non-trivial = an outbound or inbound peer refused for ban, per-host or total limit. " +
 		"connmgr free-running: real interleavings, oracle only. The witnesses of the two repaired defects (corpus/C18: 25 refusals of one address with BanAddress; outbound peer answered with two version messages) run first."
